@@ -150,6 +150,12 @@ def plan(ctx, cat):
             sp.append(("plateau", 300, ps))
             pre.append(D.plateau_cuts(300, ps, full=not ctx.quick))
             nv.append(len(vs))
+        # stretches without any traded volume (15-60 candles, also at the very start) while the price keeps moving,
+        # cut inside, at the end of and shortly after every stretch
+        for ps in ctx.pick([1], [1, 2, 3, 4]):
+            sp.append(("zerovol", 300, ps))
+            pre.append(D.zerovol_cuts(300, ps, full=not ctx.quick))
+            nv.append(len(vs))
         # one long series: closed-form kernels whose powers overflow make EARLY values depend on the input length
         sp.append(LONG)
         pre.append(LONG_PREFIXES)
